@@ -64,9 +64,33 @@ class Facts:
         self.repo = repo or REPO
         self.dir = extract.ensure(self.repo)
         self.crates = {}
+        raw = {f: open(os.path.join(self.dir, f)).read() for f in extract.EXPECTED}
+        if os.environ.get("VERIF_RENAME_FNS"):
+            # metamorphic self-test: rename every private, non-trait fn of the analysed crates (every resolved reference to
+            # it) before the facts are read; rules/fnalias.py must map them back, and no verdict may change
+            import re as _re
+            import fnalias as _fa
+            self.renamed_fns = []
+            for f in list(raw):
+                d0 = json.loads(raw[f])
+                mp = {}
+                for fn in d0["fns"]:
+                    q = fn["fn"]
+                    last = q.split("::")[-1]
+                    if not fn.get("pub") and not fn.get("derived") and not q.startswith("<") and _re.fullmatch(r"[a-z_][a-z0-9_]*", last) and last != "main":
+                        mp[q] = q + "_zz"
+                _fa.apply(d0, mp)
+                self.renamed_fns += sorted(mp)
+                raw[f] = json.dumps(d0)
+        import fnalias
+        self.aliases = {}
         for f in extract.EXPECTED:
-            d = json.load(open(os.path.join(self.dir, f)))
+            d = json.loads(raw[f])
             key = d["crate"] + ("-bin" if d["crate_type"] == "bin" else "")
+            if not os.environ.get("VERIF_NO_FNALIAS"):
+                # a renamed/moved fn is aliased back to the name the rules know (rules/fnalias.py); ambiguous cases are left alone
+                d, mp = fnalias.recover(key, d)
+                self.aliases.update(mp)
             self.crates[key] = Crate(d)
         self.templates = json.load(open(os.path.join(self.dir, "templates.json")))
         self._tmpl_ix = {}
@@ -81,8 +105,15 @@ class Facts:
     def _rename_locals(self, suffix):
         import re as _re
 
+        import hashlib as _hl
+
         def f(name):
-            return name if name in ("self", "_") else name + suffix
+            if name in ("self", "_"):
+                return name
+            if suffix == "@opaque":
+                # every local gets a meaningless name: a rule that recognises a local by a word in its name loses it
+                return "v" + _hl.md5(name.encode()).hexdigest()[:7]
+            return name + suffix
 
         for c in self.crates.values():
             for h in list(c.hir.values()):
@@ -335,6 +366,7 @@ class Report:
         self.samples = []
         self.infos = []
         self.rule_counts = {}
+        self.extra = {}
 
     # an obligation instance: `ok` False => violation
     def ob(self, rule, key, ok, detail="", where=None, nontrivial=True):
@@ -363,7 +395,7 @@ class Report:
         unlisted = [o for o in viol if o["key"] not in kf]
         listed = [o for o in viol if o["key"] in kf]
         evdir = os.path.join(VERIF, "evidence")
-        if os.path.abspath(REPO) != "/repo" or os.environ.get("VERIF_RENAME_LOCALS"):
+        if os.path.abspath(REPO) != "/repo" or os.environ.get("VERIF_RENAME_LOCALS") or os.environ.get("VERIF_RENAME_FNS"):
             # a scratch copy is being analysed (selftest): never touch the evidence of the real tree
             evdir = os.path.join(extract.CACHE, "evidence-" + os.path.basename(extract.facts_dir()))
         os.makedirs(os.path.join(evdir, "replay"), exist_ok=True)
@@ -403,6 +435,7 @@ class Report:
                 "samples": self.samples[:12] or [o for o in self.obligations[:5]],
                 "info": self.infos[:40],
                 "facts": {"repo": self.repo_info()},
+                **self.extra,
             },
             "assumptions": self.assumptions,
             "wall_s": round(time.time() - self.t0, 3),
@@ -1058,3 +1091,15 @@ def cguards(cn, anc, node, rolemap=None):
     return out
 
 
+
+
+class PCanon(Canon):
+    """Canon with positional parameter names ($P0, $P1, ..), for rules that must tell same-typed parameters apart."""
+
+    def param_name(self, idx):
+        return "$P%d" % idx
+
+    def r(self, n, depth=0, env=None):
+        t = Canon.r(self, n, depth, env)
+        # `match (a, b) { (Some(aa), Some(bb)) => ..` : project the tuple literal
+        return t.replace("($P0, $P1).0", "$P0").replace("($P0, $P1).1", "$P1")
